@@ -446,3 +446,15 @@ ADDED5 = {
 }
 for _k, _v in ADDED5.items():
     PLAN[_k]["rule"] = PLAN[_k]["rule"] + "; " + _v
+
+# after the eleventh round of seeded changes
+ADDED6 = {
+    "C03": "a quarter of the reports come from a solver object that was solved once before with a budget of 1-2 iterations",
+    "C05": "one feasible base problem in ten is a loose symmetric-cone problem with equality rows",
+    "C06": "additional strata symmetric_only and symmetric_only+equalities (2 % rule)",
+    "C13": "half of the scaling updates pass ScalingStrategy::Dual and an arbitrary mu: the scaling of a symmetric cone may depend on (s,z) only",
+    "C14": "workload near_boundary_scaling: 200000 (thorough 2000000) Exp/Pow pairs far from complementarity with the dual point down to a relative distance of 1e-13 from the boundary; an accepted primal-dual scaling must be symmetric, finite and have a positive diagonal",
+    "C19": "a settings argument is also combined with a file whose stored settings this build cannot use (must load, with the argument's settings) and an unusable argument with a sound file (must be an error, not a panic)",
+}
+for _k, _v in ADDED6.items():
+    PLAN[_k]["rule"] = PLAN[_k]["rule"] + "; " + _v
